@@ -220,8 +220,9 @@ func (t *tcpPacketConn) startReading(conn net.Conn) {
 		if err != nil {
 			t.params.Logger.Warnf("Failed to read streaming packet: %s", err)
 			last := t.removeConn(conn)
-			// Only propagate connection closure errors if no other open connection exists.
-			if last || (!errors.Is(err, io.EOF) && !errors.Is(err, net.ErrClosed)) {
+			// Only propagate the end of a connection if no other open connection exists: a broken
+			// or hostile connection (reset, oversized frame) must not end the reader that serves the others.
+			if last {
 				t.handleRecv(streamingPacket{nil, conn.RemoteAddr(), err})
 			}
 
